@@ -225,13 +225,13 @@ func VerifC14FilterQuoted() {
 	verifC14Check(s, f, "quoted name", "C14-filter-quoted-function-name")
 }
 
-// Twin: a text that mentions a function name without calling it need not reach the parser;
-// asserting that it does must be violated.
+// Twin: a text of the same shape that names none of the nine functions need not reach the
+// parser; asserting that it does must be violated.
 func VerifC14FilterTwin() {
 	t := &verifText{pool: verifBytes("t", 64), ok: true}
 	t.word("select")
 	t.ws(1)
-	t.word("date")
+	t.word("total")
 	verifC14Parsed = 0
 	st := []*proto.Statement{{Sql: t.done()}}
 	Process(st, true, true)
@@ -245,8 +245,8 @@ const (
 	vWS   = `[ \t\n\f\r]`
 	vGap  = `(?:` + vWS + `{1,3}|/\*[a-z ]{0,2}\*/|--[a-z ]{0,2}\n)` // non-empty token separator
 	vNow  = `'(?i:now)'`
-	vSel  = `^` + vWS + `*(?i:SELECT)` + vWS + `+`
-	vEnd  = vWS + `*;?` + vWS + `*$`
+	vSel  = `^(?i:SELECT)` + vWS + `+`
+	vEnd  = `;?$`
 	vTime = `(?i:date|time|datetime|julianday|unixepoch)`
 )
 
